@@ -311,7 +311,9 @@ class _MsgWorld:
 
     def new_msg(self):
         self.nmsg += 1
-        return self.cmp.Message("ping", 100 + self.nmsg)
+        # same_content: every message posted compares equal to the others (pyDcop messages compare by content) - they are
+        # still distinct messages, each owed its own delivery (the oracle tracks them by identity)
+        return self.cmp.Message("ping", 100 if self.env.params.get("same_content") else 100 + self.nmsg)
 
     def post(self, sender, dest, prio):
         msg = self.new_msg()
@@ -488,6 +490,9 @@ def _shapes_messaging_enum(tier):
         dict(batch=True, n_ops=5, prio="two", senders=["s_loc"]),                         # 11 900
         dict(batch=True, n_ops=5, prio="two", senders=["r_snd"], late=["b_late"]),        # 11 900
         dict(batch=True, n_ops=4, prio="two", senders=["s_loc"], late=["e_late", "b_late"]),   # two late destinations
+        # messages that compare equal to one another (an algorithm re-sending an unchanged value)
+        dict(batch=True, n_ops=4, prio="two", senders=["r_snd"], late=["b_late"], same_content=True),
+        dict(batch=True, n_ops=4, prio="const", senders=["s_loc"], same_content=True),
     ]
     if tier == "thorough":
         s += [
@@ -684,7 +689,7 @@ def _agent_history(env, mods, ag):
         if op[0] == "post":
             prio = _prio(env, com, p["prio"], step)
             st["nmsg"] += 1
-            msg = cmp_.Message("ping", 100 + st["nmsg"])
+            msg = cmp_.Message("ping", 100 if p.get("same_content") else 100 + st["nmsg"])
             model.post(op[1], op[2], prio, msg)
             if op[2] not in model.registered and not st["shutdown"]:
                 env.cover("held")
